@@ -1,6 +1,7 @@
 (** Bookkeeping model of [Coroutine::maybe_grow_with] (core/src/coroutine/korosensei.rs) with
     [remaining_stack] / [stack_infos] (core/src/coroutine/mod.rs), as the code is now (after the
-    repair of finding #26: the plain-thread path pops its segment on unwind, like the coroutine path).
+    repair of finding #26: the plain-thread path pops its segment on unwind, like the coroutine
+    path; and of finding red_zone_counts_guard_page: the decision deducts the guard page).
 
     A stack segment is the mmap range [g_lim, g_top) of a [DefaultStack]: one guard page at the
     bottom, the usable part above it; [StackInfo.stack_bottom] is [g_lim] (guard page included).
@@ -8,9 +9,14 @@
     Coroutine path: the recorded list is the coroutine's [stack_infos] (starts with the
     coroutine's own stack). Plain-thread path: the recorded list is the thread-local [STACK_INFOS]
     (starts empty: the thread's own stack is never recorded, so the first call always grows).
-    Decision: [sp - back.stack_bottom >= red_zone] -> run the callback where we are; otherwise
-    allocate a segment, push it, run the callback at its top ([on_stack]), pop it when the callback
-    returns or unwinds. A fault (stack exhausted) ends the execution without any pop.
+    Decision: [sp - back.stack_bottom >= red_zone + stack_guard_size()] (one page on unix) -> run
+    the callback where we are; otherwise allocate a segment, push it, run the callback at its top
+    ([on_stack]), pop it when the callback returns or unwinds. A fault (stack exhausted) ends the
+    execution without any pop.
+
+    The parameter [gd] of [code_enough] / [rec_loop] / [exec] is what the decision deducts for the
+    guard: [GUARD] (one page) in the code as it is, [0] before the repair of finding red_zone_counts_guard_page (kept for
+    the [old_*] statements only).
 
     A callback is a program tree: position the stack pointer, nested grow calls, panic, catch,
     probes of the bookkeeping, and [PRec]: n nested levels of "grow, use a frame, recurse". *)
@@ -23,6 +29,8 @@ Definition MINSZ : Z := 4096.
 Definition mmap_len (size : Z) : Z := ((Z.max size MINSZ + 2 * PAGE - 1) / PAGE) * PAGE.
 (** distance between the top of a fresh segment and the stack pointer at the start of the callback *)
 Definition OVH : Z := 512.
+(** [stack_guard_size()] on unix: the lowest page of the mapping *)
+Definition GUARD : Z := PAGE.
 
 Record seg := { g_lim : Z; g_top : Z }.
 
@@ -81,9 +89,9 @@ Definition pop_seg (s : mstate) (sp : Z) : mstate :=
 
 (** the decision of the code: [None] = the unsigned subtraction underflows (a stale entry of some
     other segment above the stack pointer): debug builds panic there *)
-Definition code_enough (s : mstate) (rz : Z) : option bool :=
+Definition code_enough (gd : Z) (s : mstate) (rz : Z) : option bool :=
   match m_rec s with
-  | back :: _ => if m_sp s <? g_lim back then None else Some (rz <=? m_sp s - g_lim back)
+  | back :: _ => if m_sp s <? g_lim back then None else Some (rz + gd <=? m_sp s - g_lim back)
   | [] => Some false
   end.
 
@@ -96,41 +104,42 @@ Definition in_back (c : ctx) (s : mstate) : bool :=
   | CThread, _ => true
   end.
 Definition usable_room (s : mstate) : Z := m_sp s - (g_lim (cur_seg s) + PAGE).
-(** what the harness reports as "the stack I am really on has >= rz left" (unknown, reported
-    false, for a plain thread that has not grown) *)
+(** what the harness reports as "the stack I am really on has >= rz usable bytes left" (unknown,
+    reported false, for a plain thread that has not grown) *)
 Definition enough_evt (c : ctx) (s : mstate) (rz : Z) : bool :=
   match c, m_grown s with
   | CThread, [] => false
-  | _, _ => rz <=? m_sp s - g_lim (cur_seg s)
+  | _, _ => rz <=? usable_room s
   end.
 
 (** n nested levels of: grow(rz, size, || { use [frame] bytes; next level }).
     Returns the outcome, the state, and whether every level started with the room it was promised
-    (counting the guard page, as the code does). *)
-Fixpoint rec_loop (n : nat) (frame rz size : Z) (s : mstate) : outcome * mstate * bool :=
+    (usable bytes, guard page not counted). *)
+Fixpoint rec_loop (gd : Z) (n : nat) (frame rz size : Z) (s : mstate) : outcome * mstate * bool :=
   match n with
   | O => (ONormal, s, true)
   | S n' =>
-      match code_enough s rz with
+      match code_enough gd s rz with
       | None => (OPanic, s, true)
       | Some true =>
           let sp0 := m_sp s in
+          let room := rz <=? usable_room s in
           let s1 := set_sp s (sp0 - frame) in
-          if m_sp s1 <? g_lim (cur_seg s1) + PAGE then (OFault, s1, true)
+          if m_sp s1 <? g_lim (cur_seg s1) + PAGE then (OFault, s1, room)
           else
-            let '(o, s2, ok) := rec_loop n' frame rz size s1 in
+            let '(o, s2, ok) := rec_loop gd n' frame rz size s1 in
             match o with
-            | OFault => (OFault, s2, ok)
-            | _ => (o, set_sp s2 sp0, ok)
+            | OFault => (OFault, s2, room && ok)
+            | _ => (o, set_sp s2 sp0, room && ok)
             end
       | Some false =>
           let sp0 := m_sp s in
           let s0 := push_seg s (alloc s size) in
-          let room := rz <=? usable_room s0 + PAGE in
+          let room := rz <=? usable_room s0 in
           let s1 := set_sp s0 (m_sp s0 - frame) in
           if m_sp s1 <? g_lim (cur_seg s1) + PAGE then (OFault, s1, room)
           else
-            let '(o, s2, ok) := rec_loop n' frame rz size s1 in
+            let '(o, s2, ok) := rec_loop gd n' frame rz size s1 in
             match o with
             | OFault => (OFault, s2, room && ok)
             | _ => (o, pop_seg s2 sp0, room && ok)
@@ -138,16 +147,16 @@ Fixpoint rec_loop (n : nat) (frame rz size : Z) (s : mstate) : outcome * mstate 
       end
   end.
 
-Fixpoint exec (c : ctx) (p : prog) (s : mstate) : outcome * mstate * list event :=
+Fixpoint exec (gd : Z) (c : ctx) (p : prog) (s : mstate) : outcome * mstate * list event :=
   match p with
   | PNil => (ONormal, s, [])
   | PPos rem body next =>
       let sp0 := m_sp s in
       let target := g_lim (cur_seg s) + rem in
       let s1 := if target <? sp0 then set_sp s target else s in
-      let '(o, s2, ev) := exec c body s1 in
+      let '(o, s2, ev) := exec gd c body s1 in
       match o with
-      | ONormal => let '(o3, s3, ev3) := exec c next (set_sp s2 sp0) in (o3, s3, ev ++ ev3)
+      | ONormal => let '(o3, s3, ev3) := exec gd c next (set_sp s2 sp0) in (o3, s3, ev ++ ev3)
       | OPanic => (OPanic, set_sp s2 sp0, ev)
       | OFault => (OFault, s2, ev)
       end
@@ -155,40 +164,40 @@ Fixpoint exec (c : ctx) (p : prog) (s : mstate) : outcome * mstate * list event 
       let sp0 := m_sp s in
       let d := depth_of s in
       let en := enough_evt c s rz in
-      match code_enough s rz with
+      match code_enough gd s rz with
       | None => (OPanic, s, [])
       | Some true =>
           let e := EGrow d en false (reported_len c s) (in_back c s) (rz <=? usable_room s) in
-          let '(o, s2, ev) := exec c body s in
+          let '(o, s2, ev) := exec gd c body s in
           match o with
-          | ONormal => let '(o3, s3, ev3) := exec c next s2 in (o3, s3, e :: ev ++ ERet true :: ev3)
+          | ONormal => let '(o3, s3, ev3) := exec gd c next s2 in (o3, s3, e :: ev ++ ERet true :: ev3)
           | OPanic => (OPanic, s2, e :: ev)
           | OFault => (OFault, s2, e :: ev)
           end
       | Some false =>
           let s1 := push_seg s (alloc s size) in
           let e := EGrow d en true (reported_len c s1) (in_back c s1) (rz <=? usable_room s1) in
-          let '(o, s2, ev) := exec c body s1 in
+          let '(o, s2, ev) := exec gd c body s1 in
           match o with
-          | ONormal => let '(o3, s3, ev3) := exec c next (pop_seg s2 sp0) in (o3, s3, e :: ev ++ ERet true :: ev3)
+          | ONormal => let '(o3, s3, ev3) := exec gd c next (pop_seg s2 sp0) in (o3, s3, e :: ev ++ ERet true :: ev3)
           | OPanic => (OPanic, pop_seg s2 sp0, e :: ev)
           | OFault => (OFault, s2, e :: ev)
           end
       end
   | PPanic => (OPanic, s, [])
   | PCatch body next =>
-      let '(o, s2, ev) := exec c body s in
+      let '(o, s2, ev) := exec gd c body s in
       match o with
-      | ONormal => let '(o3, s3, ev3) := exec c next s2 in (o3, s3, ev ++ ev3)
-      | OPanic => let '(o3, s3, ev3) := exec c next s2 in (o3, s3, ev ++ ECaught :: ev3)
+      | ONormal => let '(o3, s3, ev3) := exec gd c next s2 in (o3, s3, ev ++ ev3)
+      | OPanic => let '(o3, s3, ev3) := exec gd c next s2 in (o3, s3, ev ++ ECaught :: ev3)
       | OFault => (OFault, s2, ev)
       end
   | PProbe next =>
-      let '(o3, s3, ev3) := exec c next s in (o3, s3, EProbe (depth_of s) (reported_len c s) :: ev3)
+      let '(o3, s3, ev3) := exec gd c next s in (o3, s3, EProbe (depth_of s) (reported_len c s) :: ev3)
   | PRec n frame rz size next =>
-      let '(o, s2, ok) := rec_loop n frame rz size s in
+      let '(o, s2, ok) := rec_loop gd n frame rz size s in
       match o with
-      | ONormal => let '(o3, s3, ev3) := exec c next s2 in (o3, s3, ERec ok true :: ev3)
+      | ONormal => let '(o3, s3, ev3) := exec gd c next s2 in (o3, s3, ERec ok true :: ev3)
       | OPanic => (OPanic, s2, [])
       | OFault => (OFault, s2, [])
       end
